@@ -40,6 +40,13 @@ theorem C12_pinned_counterexample :
         (.bin (· + ·) (.rep 2 (.value (.hist [(1, 1), (2, 1)]))) (.value (.scalar 1))),
       e.1.wellOwned = false := pinned_unowned_witness
 
+/-- associating only the outcomes and their direct sources is not enough either: a three-step custom
+operator leaves an intermediate outcome without a roll -/
+theorem C12_one_hop_counterexample :
+    ∃ e ∈ rollW mkRollOneHop
+        (.unChain [(· - 4), (fun a => (a.natAbs : Int)), (· * 2)] (.value (.hist [(1, 1), (2, 1)]))),
+      e.1.wellOwned = false := oneHop_unowned_witness
+
 theorem C12_outcomes_are_live_values (outs : List RO) (srs : List RollRec) :
     (mkRollDeep outs srs).values = outs.filterMap RO.value := keepsValues_deep outs srs
 
@@ -79,6 +86,7 @@ def expectedSrcRolls : RTree → Option Nat
   | .rep n _ => some n
   | .bin _ _ _ => some 2
   | .un _ _ => some 1
+  | .unChain _ _ => some 1
   | .filt _ srcs => some srcs.length
   | .sel _ srcs => some srcs.length
   | .substMap _ _ _ _ => some 1
@@ -129,6 +137,10 @@ theorem C12_source_rolls_count (t : RTree) (n : Nat) (h : expectedSrcRolls t = s
     refine AllW_bind (fun _ => True) _ _ _ (AllW_true _) (fun rl _ => ?_)
     exact AllW_bind (fun _ => True) _ _ _ (AllW_true _) (fun rr _ => AllW_pure _ _ rfl)
   | un op s =>
+    simp only [expectedSrcRolls, Option.some.injEq] at h; subst h
+    rw [rollW]
+    exact AllW_bind (fun _ => True) _ _ _ (AllW_true _) (fun rs _ => AllW_pure _ _ rfl)
+  | unChain ops s =>
     simp only [expectedSrcRolls, Option.some.injEq] at h; subst h
     rw [rollW]
     exact AllW_bind (fun _ => True) _ _ _ (AllW_true _) (fun rs _ => AllW_pure _ _ rfl)
